@@ -8,7 +8,9 @@ Parameter block `P` = `<A> <C> <MIXMUL> <MIXSHIFT> <PRIOBITS> <SEED>` (decimal; 
 * `disc`                                   → the discipline compiled into `Generated/RngDiscipline.lean`
 * `stream P <n>`                           → the first `n` priorities from `SEED`:
                                              M = one thread of the transition system, S = `stream`
-* `tie …` / `deep …` / `render …`          → as `conc` (other operation mixes on the Rust side; the draws are the same)
+* `tie …` / `deep …` / `render …` / `stack …` / `panic …` / `exit …`
+                                           → as `conc` (other operation mixes on the Rust side; the draws are the same:
+                                             `k` threads × `m` draws each)
 * `conc <disc> <k> <m> <opseed> P`         → `k` threads × `m` draws under a pseudo-random schedule derived
                                              from `opseed` (for the split disciplines: a pseudo-random *serial*
                                              schedule — there the model has no schedule-independent outcome)
@@ -84,7 +86,8 @@ def handle (line : String) : String :=
         let st := exec .threadLocal g (init seed [n]) (List.replicate n 0)
         answer (showStream (results st 0)) (showStream (stream g seed n))
       | _, _ => badLine line
-    | "tie" :: d :: rest | "deep" :: d :: rest | "render" :: d :: rest | "conc" :: d :: rest =>
+    | "tie" :: d :: rest | "deep" :: d :: rest | "render" :: d :: rest | "stack" :: d :: rest | "panic" :: d :: rest
+    | "exit" :: d :: rest | "conc" :: d :: rest =>
       match Discipline.parse? d, parseNats? (rest.take 3), parseParams? (rest.drop 3) with
       | some D, some [k, m, opseed], some (p, seed, blind) =>
         let progs := List.replicate k m
